@@ -37,6 +37,7 @@ import (
 	"sort"
 	"strings"
 	"sync"
+	"sync/atomic"
 	"time"
 
 	"github.com/ipfs/go-cid"
@@ -183,6 +184,13 @@ type engine struct {
 	free         bool
 	stalledPeers map[int]bool
 	evCh         chan struct{}
+	gateMu       sync.Mutex
+	gateMode     map[int]string
+	gateCh       map[int]chan struct{}
+	sendBlocked  map[int]int
+	allocWaiting int32 // free mode: reservations that were not granted at once and are still waiting
+	allocRefused map[int]int // free mode: waiting reservations the allocator refused, per peer
+	lateBuild    map[int]int // free mode: messages built on a queue after its Shutdown was called, per peer
 
 	alloc *allocWrap
 	net   *fakeNet
@@ -251,6 +259,7 @@ func (c *connRec) Unprotect(p peer.ID, tag string) bool {
 	defer c.mu.Unlock()
 	delete(c.tags, k)
 	c.log = append(c.log, "-"+k)
+	defer c.e.signalEv()
 	for o := range c.tags {
 		if strings.HasPrefix(o, fmt.Sprintf("p%d/", peerIdx(p))) {
 			return true
@@ -285,11 +294,7 @@ func (n *fakeNet) NewMessageSender(_ context.Context, p peer.ID, _ gsnet.Message
 }
 func (s *fakeSender) SendMsg(ctx context.Context, m gsmsg.GraphSyncMessage) error {
 	if s.n.e.free {
-		if s.n.e.stalledPeers[s.p] {
-			<-s.n.e.ctx.Done()
-			return errors.New("shutdown")
-		}
-		return nil
+		return s.n.e.gateSend(s.p)
 	}
 	s.n.e.notes <- note{kind: "sendmsg", p: s.p, w: &wire{s.p, m}}
 	select {
@@ -299,6 +304,103 @@ func (s *fakeSender) SendMsg(ctx context.Context, m gsmsg.GraphSyncMessage) erro
 		return errors.New("shutdown")
 	}
 }
+// gateSend (free-running mode): the network of peer p completes a send at once ("ok"), fails it
+// ("fail") or keeps it on the wire until the mode changes ("stall")
+func (e *engine) gateSend(p int) error {
+	for {
+		e.gateMu.Lock()
+		mode := e.gateMode[p]
+		if mode == "" {
+			mode = "ok"
+			if e.stalledPeers[p] {
+				mode = "stall"
+			}
+		}
+		ch := e.gateCh[p]
+		if ch == nil {
+			ch = make(chan struct{})
+			e.gateCh[p] = ch
+		}
+		if mode == "stall" {
+			e.sendBlocked[p]++
+		}
+		e.gateMu.Unlock()
+		switch mode {
+		case "ok":
+			return nil
+		case "fail":
+			return errors.New("send failed")
+		}
+		e.signalEv()
+		select {
+		case <-ch:
+		case <-e.ctx.Done():
+			return errors.New("shutdown")
+		}
+		e.gateMu.Lock()
+		e.sendBlocked[p]--
+		e.gateMu.Unlock()
+	}
+}
+
+func (e *engine) setGate(p int, mode string) {
+	e.gateMu.Lock()
+	e.gateMode[p] = mode
+	if ch := e.gateCh[p]; ch != nil {
+		close(ch)
+	}
+	e.gateCh[p] = make(chan struct{})
+	e.gateMu.Unlock()
+}
+
+func (e *engine) blockedSends(p int) int {
+	e.gateMu.Lock()
+	defer e.gateMu.Unlock()
+	return e.sendBlocked[p]
+}
+
+func (e *engine) signalEv() {
+	if e.evCh != nil {
+		select {
+		case e.evCh <- struct{}{}:
+		default:
+		}
+	}
+}
+
+// mqWatch (free-running mode): the real message queue, noting messages that are built on it after its
+// Shutdown was called.  PeerMessageManager looks the queue up before the build, so a message can be
+// handed to a queue whose peer disconnected meanwhile; once that queue's shutdown drain is over such
+// a message is neither sent nor reported as unsent (known finding message-queued-after-queue-shutdown).
+type mqWatch struct {
+	*messagequeue.MessageQueue
+	e    *engine
+	p    int
+	down int32
+}
+
+func (m *mqWatch) Shutdown() {
+	atomic.StoreInt32(&m.down, 1)
+	m.MessageQueue.Shutdown()
+}
+
+func (m *mqWatch) AllocateAndBuildMessage(size uint64, fn func(*messagequeue.Builder)) {
+	m.MessageQueue.AllocateAndBuildMessage(size, func(b *messagequeue.Builder) {
+		if atomic.LoadInt32(&m.down) == 1 {
+			m.e.gateMu.Lock()
+			m.e.lateBuild[m.p]++
+			m.e.gateMu.Unlock()
+		}
+		fn(b)
+	})
+}
+
+func (e *engine) lateBuilds(p int) int {
+	e.gateMu.Lock()
+	defer e.gateMu.Unlock()
+	return e.lateBuild[p]
+}
+
 func (s *fakeSender) Close() error { return nil }
 func (s *fakeSender) Reset() error { return nil }
 
@@ -310,7 +412,33 @@ type allocWrap struct {
 
 func (a *allocWrap) AllocateBlockMemory(p peer.ID, amount uint64) <-chan error {
 	if a.e.free {
-		return a.inner.AllocateBlockMemory(p, amount)
+		ch := a.inner.AllocateBlockMemory(p, amount)
+		select {
+		case err := <-ch:
+			out := make(chan error, 1)
+			out <- err
+			return out
+		default:
+		}
+		atomic.AddInt32(&a.e.allocWaiting, 1)
+		a.e.signalEv()
+		out := make(chan error, 1)
+		go func() {
+			select {
+			case err := <-ch:
+				atomic.AddInt32(&a.e.allocWaiting, -1)
+				if err != nil {
+					// the allocator refused a waiting reservation (ReleasePeerMemory at queue shutdown)
+					a.e.gateMu.Lock()
+					a.e.allocRefused[peerIdx(p)]++
+					a.e.gateMu.Unlock()
+				}
+				out <- err
+				a.e.signalEv()
+			case <-a.e.ctx.Done():
+			}
+		}()
+		return out
 	}
 	ch := a.inner.AllocateBlockMemory(p, amount)
 	select {
@@ -324,9 +452,15 @@ func (a *allocWrap) AllocateBlockMemory(p peer.ID, amount uint64) <-chan error {
 	a.e.notes <- note{kind: "blocked", gid: curGID(), p: peerIdx(p), ba: &blockedAlloc{p: peerIdx(p), in: ch, out: out}}
 	return out
 }
-func (a *allocWrap) ReleasePeerMemory(p peer.ID) error { return a.inner.ReleasePeerMemory(p) }
+func (a *allocWrap) ReleasePeerMemory(p peer.ID) error {
+	err := a.inner.ReleasePeerMemory(p)
+	a.e.signalEv()
+	return err
+}
 func (a *allocWrap) ReleaseBlockMemory(p peer.ID, amount uint64) error {
-	return a.inner.ReleaseBlockMemory(p, amount)
+	err := a.inner.ReleaseBlockMemory(p, amount)
+	a.e.signalEv()
+	return err
 }
 
 // handlerWrap: responseassembler.PeerMessageHandler -> the real PeerMessageManager, remembering the
@@ -375,6 +509,7 @@ func (m mgrWrap) FinishTask(task *peertask.Task, p peer.ID, err error) {
 		}
 	}
 	e.rm.FinishTask(task, p, err)
+	e.signalEv()
 }
 
 // assemblerWrap: responsemanager.ResponseAssembler -> the real assembler with wrapped subscribers
@@ -409,6 +544,9 @@ func newEngineOpts(npeers int, limit uint64, maxPerPeer int, nWorkers int, free 
 		next: map[int]*messagequeue.Builder{}, inflt: map[int]*messagequeue.Builder{}, infltW: map[int]*wire{},
 		primed: map[int]bool{}, received: map[int]int{}, notes: make(chan note, 4096)}
 	e.free, e.stalledPeers = free, stalled
+	e.gateMode, e.gateCh, e.sendBlocked = map[int]string{}, map[int]chan struct{}{}, map[int]int{}
+	e.allocRefused = map[int]int{}
+	e.lateBuild = map[int]int{}
 	if free {
 		e.evCh = make(chan struct{}, 1)
 	}
@@ -427,7 +565,11 @@ func newEngineOpts(npeers int, limit uint64, maxPerPeer int, nWorkers int, free 
 	}
 	e.conn = &connRec{e: e, tags: map[string]int{}}
 	e.pmm = peermanager.NewMessageManager(ctx, func(ctx context.Context, p peer.ID, onShutdown func(peer.ID)) peermanager.PeerQueue {
-		return messagequeue.New(ctx, p, e.net, e.alloc, 1, time.Minute, onShutdown)
+		q := messagequeue.New(ctx, p, e.net, e.alloc, 1, time.Minute, onShutdown)
+		if e.free {
+			return &mqWatch{MessageQueue: q, e: e, p: peerIdx(p)}
+		}
+		return q
 	})
 	e.ra = responseassembler.New(ctx, handlerWrap{e})
 
